@@ -15,7 +15,7 @@ TECHNIQUE = ('explicit-state BFS over fetch histories on the real LogicalRecordI
              'content model and its file reads checked against the layout map')
 RULE = ('files: C01 producer restricted to layouts with multi-segment records and >= 2 visible records; per file a BFS '
         'whose operations are fetch(record, offset, length) over a grid built from that record\'s segment boundaries, '
-        'plus a full sequential read, a walk over the visible records and leaving / re-entering the same index object; state = (file.tell, visible record pos/len, segment header pos/len/attributes/type); '
+        'plus a full sequential read, a walk over the visible records, the validate() method of the index, the per-visible-record segment iterator and leaving / re-entering the same index object; state = (file.tell, visible record pos/len, segment header pos/len/attributes/type); '
         'non-trivial case = a file; outcome = hash of (file, returned bytes)')
 ASSUMPTIONS = ['the index description\'s length field is not asserted (documented to include pad bytes)',
                'offset/length follow Python slice semantics on the full payload; negative offsets are outside the API']
@@ -101,6 +101,8 @@ def op_menu(recs, lay):
     ops.append(['seq'])
     ops.append(['reenter'])
     ops.append(['vrs'])
+    ops.append(['validate'])
+    ops.append(['frags'])
     return ops
 
 
@@ -141,6 +143,28 @@ def step(system, op, check):
             return [({'kind': 'vrs_raises', 'exc': type(err).__name__}, '%s: %s' % (type(err).__name__, err))]
         if check and got != [tuple(v) for v in system.lay.vrs]:
             return [({'kind': 'visible_records'}, 'iter_visible_records() gives %r, the file holds %r' % (got[:6], system.lay.vrs[:6]))]
+        return []
+    if op[0] == 'validate':
+        # a conformant file is consistent: the index's own validation must say so whatever was done before
+        try:
+            system.index.validate()
+        except Exception as err:  # noqa
+            return [({'kind': 'validate_raises', 'exc': type(err).__name__}, 'index.validate() on a conformant file: %s: %s' % (type(err).__name__, err))]
+        return []
+    if op[0] == 'frags':
+        # the segment iterator of every visible record: the fragments of one record, joined, hold its payload
+        fr = system.index.rp66v1_file
+        try:
+            frags = []
+            for vr in list(fr.iter_visible_records()):
+                for lrsh, by in fr.iter_LRSHs_for_visible_record_and_logical_data_fragment(vr):
+                    frags.append((lrsh.position, len(by)))
+        except Exception as err:  # noqa
+            return [({'kind': 'fragments_raise', 'exc': type(err).__name__}, '%s: %s' % (type(err).__name__, err))]
+        if check:
+            exp = [(pos, ln - 4) for rec in system.lay.records for (_vi, pos, ln, _bl) in rec['segments']]
+            if frags != exp:
+                return [({'kind': 'fragments'}, 'segment fragments (position, length) %r, the file holds %r' % (frags[:6], exp[:6]))]
         return []
     if op[0] == 'reenter':
         # the same index object used for a second 'with' block: it must again hold one entry per logical record
